@@ -583,6 +583,26 @@ Definition s10_ok (parent result : expr) : bool :=
   | _ => false
   end.
 
+(* S13  length push-down:  RLen (F x) -> RLen x  for a length-preserving node F applied to x
+   (Proj, ProjS, BinL, BinR, Un, Fillna, Assign, Rename, and the left operand of Bin when it is a
+   static frame/series -- a scalar left operand would be broadcast).  [len_reach t e]: t is reached
+   from e by one or more such steps (the multi-level form RLen (F (G x)) -> RLen x is accepted too).
+   Filter and reductions are not length preserving and stop the descent. *)
+Definition is_coll (k : option kind) : bool :=
+  match k with Some (KFrame _) | Some KSeries => true | _ => false end.
+Fixpoint len_reach (t e : expr) : bool :=
+  match e with
+  | Proj x _ | ProjS x _ | BinL _ x _ | BinR _ _ x | Un _ x | Fillna x _ | Rename x _
+  | Assign x _ _ => expr_eqb x t || len_reach t x
+  | Bin _ x _ => is_coll (schema x) && (expr_eqb x t || len_reach t x)
+  | _ => false
+  end.
+Definition s13_ok (parent result : expr) : bool :=
+  match parent, result with
+  | RLen e, RLen t => len_reach t e
+  | _, _ => false
+  end.
+
 (* ------------------------------------------------------------------ *)
 (** * The checker *)
 
@@ -596,6 +616,7 @@ Definition rule_name (parent result : expr) : nat :=
            else if s7a_ok parent result then 7
            else if s9_ok parent result then 9
            else if s10_ok parent result then 10
+           else if s13_ok parent result then 13
            else 0
        end.
 
